@@ -143,6 +143,11 @@ class Capture:
         rec.pop('keep_r', None)
         # spill rewriting is checked right away so that only the last round has to be kept
         rec['n_rounds'] = len(rec['rounds'])
+        # virtual registers the allocator's INPUT program already reads before any write (not the allocator's doing)
+        try:
+            rec['entry_undef'] = set(k for k in liveness(rec['entry'])[0][0] if k[0] == 'V') if rec['entry'] else set()
+        except Exception:   # noqa: BLE001
+            rec['entry_undef'] = set()
         rec['spill_errs'] = check_spill_py(rec) if len(rec['rounds']) > 1 else []
         if rec['rounds']:
             rec['rounds'] = [rec['rounds'][-1]]
@@ -242,11 +247,25 @@ class Capture:
                 slots.append((loc.offset, loc.size))
                 return loc
             fr.alloc = alloc
+            o_after, o_before = fr.insert_code_after, fr.insert_code_before
+
+            def ins_after(instruction, code):
+                code = list(code)
+                rec['spill_seq_max'] = max(rec.get('spill_seq_max', 0), len(code))
+                return o_after(instruction, code)
+
+            def ins_before(instruction, code):
+                code = list(code)
+                rec['spill_seq_max'] = max(rec.get('spill_seq_max', 0), len(code))
+                return o_before(instruction, code)
+            fr.insert_code_after, fr.insert_code_before = ins_after, ins_before
             temps = [(cap.rkey(t), getattr(type(t), 'bitsize', None)) for t in node.temps]
             try:
                 return orig_rw(self, node)
             finally:
                 del fr.alloc
+                del fr.insert_code_after
+                del fr.insert_code_before
                 rec['spills'].append({'round': len(rec['rounds']), 'temps': temps, 'slots': slots})
 
         cls.alloc_frame = alloc_frame
@@ -355,6 +374,9 @@ def pycheck(rec):
                     errs.append(('conflict', k, i['txt'], color[d], color[v]))
     e = sorted(lin[0]) if prog else []
     for a in e:
+        if a[0] == 'V' and a not in rec.get('entry_undef', ()):
+            errs.append(('virtual-register-live-at-entry', a))
+    for a in e:
         for b in e:
             if a < b and not (a[0] == 'P' and b[0] == 'P') and a in color and b in color and conflict(alias, color[a], color[b]):
                 errs.append(('entry-live-registers-alias', color[a], color[b]))
@@ -390,6 +412,15 @@ def check_spill_py(rec):
             for x in i['uses'] + i['defs']:
                 if x in spilled:
                     errs.append(('spilled-temp-still-used', r, i['txt']))
+        written = set()      # fresh registers written so far in the current inserted sequence (in order)
+        for k, i in enumerate(b):
+            if i['id'] in sa:
+                written = set(x for x in i['defs'] if x[0] == 'V' and x not in regs_a)
+            else:
+                for x in i['uses']:
+                    if x[0] == 'V' and x not in regs_a and x not in written:
+                        errs.append(('spill-code-reads-temporary-before-it-is-written', r, i['txt']))
+                written |= set(x for x in i['defs'] if x[0] == 'V')
         for k, i in enumerate(b):
             if i['id'] not in sa:
                 for x in i['uses'] + i['defs']:
@@ -548,11 +579,12 @@ ARCH = {
     'or1k': ('c', ['int', 'char'], ['*', '^'], 4, 2),
     'microblaze': ('c', ['int', 'char'], ['*', '^'], 4, 2),
     'mips': ('c', ['int'], ['*', '^'], 4, 1),
-    'xtensa': ('c', ['int'], ['*'], 4, 1),
+    'xtensa': ('c', ['int', 'char'], ['*'], 4, 2),
     # m68k is not exercised: its selector rejects almost every generated program and the allocator
     # occasionally does not terminate on the rest (termination is outside C06)
 }
-QUICK_TARGETS = ['x86_64', 'arm', 'riscv', 'msp430', 'avr', 'arm:thumb', 'or1k', 'microblaze']
+QUICK_TARGETS = ['x86_64', 'arm', 'riscv', 'msp430', 'avr', 'arm:thumb', 'or1k', 'microblaze', 'xtensa']
+LONG_TARGETS = ['x86_64', 'arm', 'riscv']     # targets of the "long function" family
 THOROUGH_TARGETS = list(ARCH)
 
 
@@ -648,6 +680,61 @@ class Gen:
             head = 'function %s %s(%s)' % (rty, name, ', '.join('%s %s' % (t, p) for t, p in zip(ptys, params)))
         return head + ' {\n  ' + '\n  '.join(body) + '\n}\n', nparams
 
+    def spillfunc(self, name, callee):
+        """many values live across a call: forces spills (all targets, incl. two-instruction spill stores)"""
+        r = self.rng
+        t = r.choice(self.types)
+        cname, cn = callee
+        nv = r.randint(6, 11)
+        names = ['t%d' % k for k in range(nv)]
+        lines = []
+        if self.lang == 'c':
+            lines.append('%s %s(%s a, %s b) {' % (t, name, t, t))
+        else:
+            lines.append('function %s %s(%s a, %s b) {' % (t, name, t, t))
+        for k, v in enumerate(names):
+            lines.append('  ' + self.decl(t, v, 'a + b + %d' % (k + 3)))
+            lines.append('  a = a + %s; b = b - %s;' % (v, v))
+        lines.append('  ' + self.decl(t, 'r', '%s(%s)' % (cname, ', '.join(['a'] * cn))))
+        for v in names:
+            lines.append('  r = r + r + %s;' % v)
+        for k, v in enumerate(names):
+            lines.append('  r = r - (%s + %d);' % (v, k))
+        lines.append('  return r;')
+        lines.append('}')
+        return '\n'.join(lines) + '\n'
+
+    def longprogram(self, seq):
+        """120-200 basic blocks in sequence (if/else chain, a loop around part of it) with 2-6 values
+        defined at the top and used at the bottom"""
+        r = self.rng
+        t = r.choice(['long', 'int']) if self.march == 'x86_64' else 'int'
+        nk = r.randint(2, 6)
+        nif = r.randint(40, 66)
+        lines = ['%s lf%d(%s a, %s b) {' % (t, seq, t, t)]
+        for k in range(nk):
+            lines.append('  %s k%d = a * %d + %d;' % (t, k, k + 3, k + 1))
+        lines += ['  %s x = b;' % t, '  %s y = a - b;' % t, '  %s i = 0;' % t]
+
+        def ifelse(i):
+            v, w = r.choice([('x', 'y'), ('y', 'x'), ('x', 'x')])
+            return '  if (%s & %d) { %s = %s + %d; } else { %s = %s - %d; %s = %s + 1; }' % (
+                w, 1 << (i % 5), v, v, i + 1, v, v, 2 * i + 1, w, w)
+        cut1 = r.randint(5, nif // 3)
+        cut2 = r.randint(cut1 + 5, 2 * nif // 3)
+        for i in range(cut1):
+            lines.append(ifelse(i))
+        lines.append('  while (i < 3) {')
+        for i in range(cut1, cut2):
+            lines.append('  ' + ifelse(i))
+        lines.append('    i = i + 1;')
+        lines.append('  }')
+        for i in range(cut2, nif):
+            lines.append(ifelse(i))
+        lines.append('  return %s + x + y;' % ' + '.join('k%d' % k for k in range(nk)))
+        lines.append('}')
+        return '\n'.join(lines) + '\n'
+
     def ptrfunc(self, name):
         r = self.rng
         t = self.types[0]
@@ -666,7 +753,9 @@ class Gen:
 
     def program(self, seq):
         r = self.rng
-        kinds = ['pressure', 'calls', 'loop', 'mixed', 'ptr', 'divshift', 'pressure', 'calls']
+        kinds = ['pressure', 'calls', 'loop', 'mixed', 'ptr', 'divshift', 'pressure', 'calls', 'spill']
+        if self.march == 'xtensa':
+            kinds = ['spill', 'spill', 'calls', 'loop', 'ptr']
         if self.march not in ('x86_64', 'arm', 'riscv', 'or1k', 'microblaze'):
             kinds = [k for k in kinds if k != 'divshift']
         parts = []
@@ -684,6 +773,8 @@ class Gen:
             name = 'f%d_%d' % (seq, k)
             if kind == 'ptr':
                 parts.append(self.ptrfunc(name))
+            elif kind == 'spill':
+                parts.append(self.spillfunc(name, ('callee%d' % seq, cn)))
             else:
                 parts.append(self.func(name, kind, ('callee%d' % seq, cn))[0])
         src = ''.join(parts)
@@ -789,15 +880,16 @@ def encode_frame(rec):
             atbl.append('(%d,%s)' % (pid, zl(qs)))
     removed = ['%d%%nat' % k for k, i in enumerate(prog) if i['id'] not in after_ids]
     physl = sorted(set(rid(k) for k in rec['regs'] if k[0] == 'P'))
+    extra = sorted(rid(k) for k in rec.get('entry_undef', ()) if k in rec['regs'])
     pre = ['(%d,%d)' % (rid(k), phys[p0]) for k, p0 in rec['pre'].items()]
     atxt = []
     na = len(rec['after'])
     for i, row in zip(rec['after'], rec['after_phys']):
         atxt.append(instr([phys[p] for p in row['uses']], [phys[p] for p in row['defs']], [phys[p] for p in row['clob']],
                           i['move'], [after_ids.get(j, na) for j in i['jumps']]))
-    term = 'check_frame [%s] 60%%nat [%s] [%s] %s [%s] [%s] [%s]' % (
+    term = 'check_frame [%s] 60%%nat [%s] [%s] %s %s [%s] [%s] [%s]' % (
         ';\n'.join(ptxt), ';'.join('(%d,%d)' % cp for cp in ctbl), ';'.join(atbl),
-        zl(physl), ';'.join(removed), ';'.join(pre), ';\n'.join(atxt))
+        zl(physl), zl(extra), ';'.join(removed), ';'.join(pre), ';\n'.join(atxt))
     stats = {'instructions': n, 'vregs': len(vid), 'phys': len(phys), 'removed': len(removed),
              'maxlive': max([len(x) for x in lout] + [0])}
     return term, stats
@@ -852,6 +944,19 @@ def collect_frames(ctx, cap, budget_frames, targets):
             if err:
                 fails.setdefault(march, {}).setdefault(err.split(':')[0], 0)
                 fails[march][err.split(':')[0]] += 1
+        if march in LONG_TARGETS:
+            for _ in range(1 if ctx.quick() else 4):
+                seq += 1
+                src = g.longprogram(seq)
+                opt = rng.choice([1, 2])
+                before = len(cap.frames)
+                err = compile_program(march, g.lang, src, opt)
+                nprog += 1
+                for fr in cap.frames[before:]:
+                    fr.update({'march': march, 'opt': opt, 'src_seq': seq, 'src': src, 'family': 'long'})
+                if err:
+                    fails.setdefault(march, {}).setdefault(err.split(':')[0], 0)
+                    fails[march][err.split(':')[0]] += 1
         per_target[march] = len(cap.frames) - n0
     ctx.cov['programs'] = nprog
     ctx.cov['stages']['frames_per_target'] = per_target
@@ -859,11 +964,47 @@ def collect_frames(ctx, cap, budget_frames, targets):
     return nprog
 
 
+def entry_witness(rec):
+    """a concrete path from the function entry to an instruction that reads a virtual register which no
+    instruction on the path has written (and which the allocator's input program did not already read
+    undefined): the read cannot return 'the most recent definition'"""
+    prog = last_round(rec)
+    if not prog:
+        return None
+    lin, lout, sc = liveness(prog)
+    for v in sorted(lin[0]):
+        if v[0] != 'V' or v in rec.get('entry_undef', ()):
+            continue
+        prev = {0: None}
+        todo = [0]
+        while todo:
+            k = todo.pop(0)
+            if v in prog[k]['uses']:
+                path = []
+                j = k
+                while j is not None:
+                    path.append(j)
+                    j = prev[j]
+                path.reverse()
+                return {'what': 'a virtual register is read before any instruction has written it',
+                        'register': str(v), 'colour': list(rec['color'].get(v, ())),
+                        'reading_instruction': prog[k]['txt'], 'instruction_index': k,
+                        'path_from_entry': path[:6] + (['...'] if len(path) > 12 else []) + path[-6:],
+                        'next_instructions': [i['txt'] for i in prog[k + 1:k + 3]]}
+            if v in prog[k]['defs']:
+                continue
+            for s2 in sc[k]:
+                if s2 < len(prog) and s2 not in prev:
+                    prev[s2] = k
+                    todo.append(s2)
+    return None
+
+
 def report_rejection(ctx, rec, why):
     """a frame the validator (or the encoder) rejected: confirm with the interpreter"""
     ctx.cov['disagreements_checked'] = ctx.cov.get('disagreements_checked', 0) + 1
     errs, _ = pycheck(rec)
-    wit = interp_search(rec, tries=120 if not ctx.quick() else 60)
+    wit = entry_witness(rec) or interp_search(rec, tries=120 if not ctx.quick() else 60)
     base = {'fn': 'GraphColoringRegisterAllocator.alloc_frame', 'key': 'alloc:' + rec.get('march', rec['arch']),
             'target': rec.get('march', rec['arch']), 'function': rec['name'], 'opt_level': rec.get('opt'),
             'validator': why, 'failing_clauses': [list(map(str, e)) for e in errs[:6]],
@@ -999,6 +1140,15 @@ def run(ctx):
                            'def followed by a store, distinct sufficiently large slots', 'actual': [list(map(str, e)) for e in errs[:5]],
                            'source': f.get('src', ''), 'opt_level': f.get('opt')})
     ctx.cov['stages']['spill_frames_checked'] = nsp
+    multi = {}
+    for f in frames:
+        if f.get('spill_seq_max', 0) >= 2:
+            multi[f.get('march')] = multi.get(f.get('march'), 0) + 1
+    ctx.cov['stages']['frames_with_multi_instruction_spill_code'] = multi
+    longf = [f for f in frames if f.get('family') == 'long']
+    ctx.cov['stages']['long_function_frames'] = [
+        {'target': f.get('march'), 'instructions': len(last_round(f)),
+         'blocks': sum(1 for i in last_round(f) if i['jumps'])} for f in longf]
     ctx.cov.setdefault('disagreements_checked', 0)
     ctx.cov['exhaustive'] = False
 
